@@ -344,7 +344,8 @@ type c10Remote struct {
 	calls int
 	sec   int64 // second in which the last answer was produced
 	// what to answer in the current step
-	exp     *int64 // remaining lifetime in seconds, nil = no expiry information
+	exp     *int64  // remaining lifetime in seconds, nil = no expiry information
+	chain   []int64 // JWK only: remaining lifetimes of the further x5c elements (issuing CAs, nearest first)
 	step    int
 	keyIdx  int
 	httpRes map[string]any
@@ -417,7 +418,7 @@ func c10Server() *httptest.Server {
 			c10Rem.calls++
 			c10Rem.sec = now.Unix()
 
-			jwk, err := c10PKI.jwk(c10Rem.keyIdx, c10Rem.exp, now, int64(c10Rem.step))
+			jwk, err := c10PKI.jwk(c10Rem.keyIdx, c10Rem.exp, c10Rem.chain, now, int64(c10Rem.step))
 			if err != nil {
 				http.Error(w, err.Error(), http.StatusInternalServerError)
 
@@ -472,6 +473,7 @@ func c10Server() *httptest.Server {
 type c10Pki struct {
 	caKey   *ecdsa.PrivateKey
 	caCert  *x509.Certificate
+	subKeys []*ecdsa.PrivateKey // keys of the intermediate CAs issued on the fly
 	keys    []*ecdsa.PrivateKey
 	tokens  []string
 	caFile  string
@@ -533,6 +535,15 @@ func c10InitPKI() (*c10Pki, error) {
 			return nil, err
 		}
 
+		for range 2 {
+			key, err := ecdsa.GenerateKey(elliptic.P256(), rand.Reader)
+			if err != nil {
+				return nil, err
+			}
+
+			p.subKeys = append(p.subKeys, key)
+		}
+
 		for i := range 3 {
 			key, err := ecdsa.GenerateKey(elliptic.P256(), rand.Reader)
 			if err != nil {
@@ -577,7 +588,15 @@ func c10InitPKI() (*c10Pki, error) {
 	return c10PKI, c10PKIErr
 }
 
-func (p *c10Pki) jwk(idx int, rel *int64, now time.Time, serial int64) (jose.JSONWebKey, error) {
+// jwk builds the JWK of key idx. rel = remaining lifetime of the key's own (end entity) certificate, nil = a JWK
+// without certificates. chain = remaining lifetimes of the further x5c elements, nearest issuer first:
+//
+//	len(chain) == 0: x5c = [ee],           ee  <- root (trust store)
+//	len(chain) == 1: x5c = [ee, ca1],      ee  <- ca1 <- root
+//	len(chain) == 2: x5c = [ee, ca2, ca1], ee  <- ca2 <- ca1 <- root
+//
+// every certificate is issued now, with its own NotAfter (whole seconds relative to the current second).
+func (p *c10Pki) jwk(idx int, rel *int64, chain []int64, now time.Time, serial int64) (jose.JSONWebKey, error) {
 	key := p.keys[idx]
 	jwk := jose.JSONWebKey{Key: &key.PublicKey, KeyID: "kid-" + strconv.Itoa(idx), Algorithm: "ES256", Use: "sig"}
 
@@ -585,23 +604,53 @@ func (p *c10Pki) jwk(idx int, rel *int64, now time.Time, serial int64) (jose.JSO
 		return jwk, nil
 	}
 
-	tmpl := &x509.Certificate{
+	if len(chain) > len(p.subKeys) {
+		chain = chain[:len(p.subKeys)]
+	}
+
+	issue := func(tmpl *x509.Certificate, pub *ecdsa.PublicKey, issuer *x509.Certificate,
+		issuerKey *ecdsa.PrivateKey,
+	) (*x509.Certificate, error) {
+		raw, err := x509.CreateCertificate(rand.Reader, tmpl, issuer, pub, issuerKey)
+		if err != nil {
+			return nil, err
+		}
+
+		return x509.ParseCertificate(raw)
+	}
+
+	// the CAs, from the one issued by the root down to the issuer of the end entity certificate
+	issuer, issuerKey := p.caCert, p.caKey
+
+	var cas []*x509.Certificate
+
+	for i := len(chain) - 1; i >= 0; i-- {
+		caKey := p.subKeys[i]
+
+		ca, err := issue(&x509.Certificate{
+			SerialNumber: big.NewInt(100000 + 10*serial + int64(i)),
+			Subject:      pkix.Name{CommonName: "C10 issuing CA " + strconv.Itoa(i)},
+			NotBefore:    now.Add(-2 * time.Hour), NotAfter: time.Unix(now.Unix()+chain[i], 0),
+			IsCA: true, BasicConstraintsValid: true, KeyUsage: x509.KeyUsageCertSign | x509.KeyUsageCRLSign,
+		}, &caKey.PublicKey, issuer, issuerKey)
+		if err != nil {
+			return jwk, err
+		}
+
+		cas = append([]*x509.Certificate{ca}, cas...)
+		issuer, issuerKey = ca, caKey
+	}
+
+	cert, err := issue(&x509.Certificate{
 		SerialNumber: big.NewInt(1000 + serial), Subject: pkix.Name{CommonName: "C10 signer"},
 		NotBefore: now.Add(-2 * time.Hour), NotAfter: time.Unix(now.Unix()+*rel, 0),
 		KeyUsage: x509.KeyUsageDigitalSignature,
-	}
-
-	raw, err := x509.CreateCertificate(rand.Reader, tmpl, p.caCert, &key.PublicKey, p.caKey)
+	}, &key.PublicKey, issuer, issuerKey)
 	if err != nil {
 		return jwk, err
 	}
 
-	cert, err := x509.ParseCertificate(raw)
-	if err != nil {
-		return jwk, err
-	}
-
-	jwk.Certificates = []*x509.Certificate{cert}
+	jwk.Certificates = append([]*x509.Certificate{cert}, cas...)
 
 	return jwk, nil
 }
@@ -915,6 +964,17 @@ func c10RunSteps(c map[string]any, exec c10Exec, perStep func(step map[string]an
 
 		c10Rem.mu.Lock()
 		c10Rem.exp = c10OptInt(step, "exp")
+		c10Rem.chain = nil
+
+		for _, v := range getArr(step, "chain") {
+			switch n := v.(type) {
+			case json.Number:
+				i, _ := n.Int64()
+				c10Rem.chain = append(c10Rem.chain, i)
+			case float64:
+				c10Rem.chain = append(c10Rem.chain, int64(n))
+			}
+		}
 		c10Rem.step = i
 		c10Rem.keyIdx = getInt(step, "key")
 		callsBefore := c10Rem.calls
